@@ -463,4 +463,29 @@ theorem f6c_counterexample :
     m.addrAt 0 2 = some (-100) ∧ m.addrAtT (-128) 127 0 2 = none := by
   decide
 
+/-! ### F24: what a ref inherits from its target is not analysed -/
+
+/-- Witness of finding F24: a register at 5 repeated 3 × 1 and a ref to it that overrides only the address (255),
+    register address type `u8`. -/
+def f24Target : Register :=
+  { name := "obj", access := .rw, byteOrder := none, bitOrder := .lsb0, allowBitOverlap := false,
+    allowAddressOverlap := false, address := 5, sizeBits := 8, reset := none, repeat_ := some ⟨3, 1⟩, fields := [] }
+def f24Ref : RefObject :=
+  { name := "far", override := .register { name := "obj", access := none, address := some 255,
+                                             allowAddressOverlap := false, reset := none, repeat_ := none } }
+def f24Device : List Object := [.register f24Target, .ref f24Ref]
+
+/-- The analysis bounds the ref as the single address 255 … -/
+theorem f24_analysed_as_one_address : findMinMax f24Device selRegister = .ok (0, 255) := by rfl
+
+/-- … so the definition is accepted with `u8`, although the lowering lets the ref inherit the repeat of its
+    target (`substRef`): the accessor `far(i)` exists for `i < 3` and `far(1)` computes 256 (known finding F24;
+    `reachable_in_range` speaks of a ref at its *own* address and repeat only). -/
+theorem f24_counterexample (n : Names) :
+    checkAddrKind f24Device "register" (some .u8) selRegister = .ok () ∧
+    (substRef n f24Ref "new" (.register f24Target)).map (fun p => (p.1.address, p.1.repeat_)) =
+      some (some 255, some ⟨3, 1⟩) ∧
+    ¬ ((255 : Int) + 1 * 1 ≤ Integer.u8.maxValue) := by
+  refine ⟨rfl, rfl, by decide⟩
+
 end DDV.Props.C13
